@@ -1,4 +1,5 @@
 import Tickit.Proof.RBFlush
+import Tickit.Proof.RBFlushScreen
 /-
   C04: the hypotheses of `flush_spec` (what C03's invariant says of a reachable buffer, as far as the flush looks at it),
   the per-run lemmas and the per-line induction over `flushCols`.
@@ -220,7 +221,7 @@ theorem cellOK_glyph (g : Glyph) (p tp : Pen) (old : TCell) :
 /-- The ERASE case. -/
 theorem erase_run {rb : RB} {line col : Int} (hl : 0 ≤ line ∧ line < rb.lines) (h0 : 0 ≤ col)
     (hr : RunAt rb line col) (hs : (rb.cell line col).state = .erase)
-    (t : GridTerm) (hc : rb.cols ≤ t.cols) (ht : t.line = line ∧ t.col = col) (m : MaybeBool) :
+    (t : GridTerm) (hc : col + (rb.cell line col).cols ≤ t.cols) (ht : t.line = line ∧ t.col = col) (m : MaybeBool) :
     Drawn rb line col (rb.cell line col).cols t
       (t.run [.setpen (rb.cell line col).pen, .erasech (rb.cell line col).cols m]) ∧
     (m = .yes → col + (rb.cell line col).cols < t.cols →
@@ -338,7 +339,7 @@ theorem glyph_table_facts : ∀ m, m < 256 → 1 ≤ m →
 /-- The CHAR case. -/
 theorem char_run {rb : RB} {line col : Int} (hl : 0 ≤ line ∧ line < rb.lines) (h0 : 0 ≤ col)
     (hr : RunAt rb line col) (hs : (rb.cell line col).state = .char)
-    (t : GridTerm) (hc : rb.cols ≤ t.cols) (ht : t.line = line ∧ t.col = col) :
+    (t : GridTerm) (hc : col + (rb.cell line col).cols ≤ t.cols) (ht : t.line = line ∧ t.col = col) :
     Drawn rb line col (rb.cell line col).cols t
       (t.run [.setpen (rb.cell line col).pen,
               .print (Utf8.put (rb.cell line col).cp.toNat) 0 (Utf8.put (rb.cell line col).cp.toNat).length]) ∧
@@ -350,7 +351,7 @@ theorem char_run {rb : RB} {line col : Int} (hl : 0 ≤ line ∧ line < rb.lines
   have hnp := narrow_print t ht (rb.cell line col).pen
     [⟨Utf8.put (rb.cell line col).cp.toNat, (rb.cell line col).cp.toNat, 1⟩]
     (by intro c hc; simp only [List.mem_singleton] at hc; subst hc; exact ⟨hok.1, hok.2⟩) (by simp)
-    (by have := hr.fits; simp only [List.length_singleton]; omega)
+    (by rw [hone] at hc; simp only [List.length_singleton]; omega)
   simp only [List.flatMap_cons, List.flatMap_nil, List.append_nil, List.length_singleton] at hnp
   obtain ⟨h1, h2, h2c, h3, h4⟩ := hnp
   rw [hone]
@@ -472,7 +473,7 @@ theorem penSame_of_equiv (tp p0 p : Pen) (h : Pen.equiv p p0 = true) : penSame (
 /-- The LINE case. -/
 theorem line_run {rb : RB} {line col : Int} (hl : 0 ≤ line ∧ line < rb.lines) (h0 : 0 ≤ col)
     (htl : Tiled rb line col) (hlt : col < rb.cols) (hs : (rb.cell line col).state = .line)
-    (t : GridTerm) (hc : rb.cols ≤ t.cols) (ht : t.line = line ∧ t.col = col) :
+    (t : GridTerm) (hc : col + (lineBatch rb line col).length ≤ t.cols) (ht : t.line = line ∧ t.col = col) :
     Drawn rb line col (lineBatch rb line col).length t
       (t.run [.setpen (rb.cell line col).pen,
               .print (batchBytes (lineBatch rb line col)) 0 (batchBytes (lineBatch rb line col)).length]) ∧
@@ -481,7 +482,7 @@ theorem line_run {rb : RB} {line col : Int} (hl : 0 ≤ line ∧ line < rb.lines
       col + (lineBatch rb line col).length := by
   obtain ⟨hb, hbt, hlen⟩ := lineBatch_isBatch htl hlt hs
   have hble := hbt.le_cols
-  generalize lineBatch rb line col = batch at hb hlen hble ⊢
+  generalize lineBatch rb line col = batch at hb hlen hble hc ⊢
   rw [batchBytes_eq]
   have hfacts : ∀ c ∈ batch.map lineCh, SelfDec c ∧ Utf8.wcwidth c.cp = 1 := by
     intro c hc
@@ -528,10 +529,10 @@ theorem line_run {rb : RB} {line col : Int} (hl : 0 ≤ line ∧ line < rb.lines
 
 /-! ## One line of the flush -/
 
-/-- What the TEXT case has to achieve at a run start (discharged in `Proof/RBFlushTextRun.lean`), on a terminal at
-    least as wide as the buffer. -/
+/-- What the TEXT case has to achieve at a run start (discharged in `Proof/RBFlushTextRun.lean`), on a terminal wide
+    enough for the run. -/
 def TextRunOK (rb : RB) (line col : Int) : Prop :=
-  ∀ t : GridTerm, rb.cols ≤ t.cols → t.line = line ∧ t.col = col →
+  ∀ t : GridTerm, col + (rb.cell line col).cols ≤ t.cols → t.line = line ∧ t.col = col →
     Drawn rb line col (rb.cell line col).cols t (t.run (textReqs (rb.cell line col))) ∧
     (col + (rb.cell line col).cols < t.cols →
       (t.run (textReqs (rb.cell line col))).col = col + (rb.cell line col).cols)
@@ -571,19 +572,62 @@ theorem drawn_then {rb : RB} {line col n : Int} (t t0 t1 t2 : GridTerm) (hn : 1 
   · intro l c hc
     rw [hout l c (by omega), hd.outside l c (by omega), h0]
 
-/-- One line of the flush on a terminal at least as wide as the buffer: wherever the cursor was (pending wrap
-    included), every cell of the line from `col` on is drawn as the buffer wants it and nothing else is touched. -/
-theorem flushCols_spec {rb : RB} {line : Int} (hl : 0 ≤ line ∧ line < rb.lines)
+/-- The content of the buffer lies within `W` columns and `L` lines: every run that is not SKIP ends at or before
+    column `W`, on a line above `L`.  (`W = rb.cols`, `L = rb.lines` always works.) -/
+def FitsIn (rb : RB) (W L : Int) : Prop :=
+  ∀ line col, 0 ≤ line → line < rb.lines → 0 ≤ col → RunAt rb line col → (rb.cell line col).state ≠ .skip →
+    col + (rb.cell line col).cols ≤ W ∧ line < L
+
+theorem calm_gotoIf (L : Int) (t : GridTerm) (phycol line col : Int) (h : 0 ≤ line ∧ line < L) :
+    Calm L t (gotoIf phycol line col) := by
+  unfold gotoIf
+  split
+  · exact ⟨h, trivial⟩
+  · trivial
+
+theorem textReqs_noGoto (cell : Cell) : ∀ r ∈ textReqs cell, r.isGoto = false := by
+  intro r hr
+  unfold textReqs at hr
+  simp only [List.mem_append, List.mem_singleton] at hr
+  rcases hr with ((hr | hr) | hr) | hr
+  · subst hr; rfl
+  · split at hr
+    · simp only [List.mem_singleton] at hr; subst hr; rfl
+    · simp at hr
+  · split at hr
+    · simp only [List.mem_singleton] at hr; subst hr; rfl
+    · simp at hr
+  · split at hr
+    · simp only [List.mem_singleton] at hr; subst hr; rfl
+    · simp at hr
+
+/-- The requests of one run: a goto when needed, then requests that leave the cursor on the line. -/
+theorem calm_run (L : Int) (t : GridTerm) (phycol line col : Int) (X rest : List Req) (hL : 0 ≤ line ∧ line < L)
+    (hng : ∀ r ∈ X, r.isGoto = false) (h1 : (t.run (gotoIf phycol line col)).line = line)
+    (h2 : ((t.run (gotoIf phycol line col)).run X).line = line)
+    (h3 : Calm L ((t.run (gotoIf phycol line col)).run X) rest) :
+    Calm L t (gotoIf phycol line col ++ X ++ rest) := by
+  refine calm_append L _ _ t (calm_append L _ _ t (calm_gotoIf L t phycol line col hL) ?_) ?_
+  · exact calm_of_line_eq L X _ hng (by rw [h2, h1])
+  · rw [GridTerm.run_append]; exact h3
+
+/-- One line of the flush on a terminal wide enough for the content of the line (`W` columns; in particular a terminal
+    at least as wide as the buffer): wherever the cursor was (pending wrap included), every cell of the line from `col`
+    on is drawn as the buffer wants it, nothing else is touched, and the requests are calm on a screen of `L` lines. -/
+theorem flushCols_spec {rb : RB} {line W L : Int} (hl : 0 ≤ line ∧ line < rb.lines)
+    (hin : ∀ col, 0 ≤ col → RunAt rb line col → (rb.cell line col).state ≠ .skip →
+      col + (rb.cell line col).cols ≤ W ∧ line < L)
     (htext : ∀ col, 0 ≤ col → RunAt rb line col → (rb.cell line col).state = .text → TextRunOK rb line col) :
-    ∀ (fuel : Nat) (col phycol : Int) (t : GridTerm), Tiled rb line col → 0 ≤ col → rb.cols ≤ t.cols →
-      (rb.cols - col).toNat < fuel → phycol ≤ col → (phycol = col → col < rb.cols → t.line = line ∧ t.col = col) →
+    ∀ (fuel : Nat) (col phycol : Int) (t : GridTerm), Tiled rb line col → 0 ≤ col → W ≤ t.cols →
+      (rb.cols - col).toNat < fuel → phycol ≤ col → (phycol = col → col < W → t.line = line ∧ t.col = col) →
       (flushCols textReqs rb line fuel col phycol).2 = .ok ∧
       (t.run (flushCols textReqs rb line fuel col phycol).1).cols = t.cols ∧
       (∀ c, col ≤ c → c < rb.cols →
         cellOK (want rb line c) (t.cells line c)
           ((t.run (flushCols textReqs rb line fuel col phycol).1).cells line c) = true) ∧
       (∀ l c, ¬ (l = line ∧ col ≤ c ∧ c < rb.cols) →
-        (t.run (flushCols textReqs rb line fuel col phycol).1).cells l c = t.cells l c) := by
+        (t.run (flushCols textReqs rb line fuel col phycol).1).cells l c = t.cells l c) ∧
+      Calm L t (flushCols textReqs rb line fuel col phycol).1 := by
   intro fuel
   induction fuel with
   | zero => intro col phycol t _ _ _ hf; omega
@@ -600,8 +644,8 @@ theorem flushCols_spec {rb : RB} {line : Int} (hl : 0 ≤ line ∧ line < rb.lin
       · -- SKIP
         rename_i hs
         have := ih (col + (rb.cell line col).cols) phycol t hnext (by omega) hcw (by omega) (by omega) (by omega)
-        obtain ⟨i1, i0, i2, i3⟩ := this
-        refine ⟨i1, i0, ?_, ?_⟩
+        obtain ⟨i1, i0, i2, i3, i4⟩ := this
+        refine ⟨i1, i0, ?_, ?_, i4⟩
         · intro c hc1 hc2
           by_cases hc : c < col + (rb.cell line col).cols
           · rw [i3 line c (by omega), want_of_run hl h0 hr c hc1 hc]
@@ -611,20 +655,24 @@ theorem flushCols_spec {rb : RB} {line : Int} (hl : 0 ≤ line ∧ line < rb.lin
           exact i3 l c (by omega)
       · -- TEXT
         rename_i hs
-        obtain ⟨g1, g2, g3, g4⟩ := gotoIf_ready t h0 (by omega) hp1 (fun h => hp2 h hlt)
-        obtain ⟨hd, hcol⟩ := htext col h0 hr hs (t.run (gotoIf phycol line col)) (by rw [g4]; exact hcw) ⟨g1, g2⟩
+        obtain ⟨hW, hL⟩ := hin col h0 hr (by rw [hs]; decide)
+        obtain ⟨g1, g2, g3, g4⟩ := gotoIf_ready t h0 (by omega) hp1 (fun h => hp2 h (by omega))
+        obtain ⟨hd, hcol⟩ := htext col h0 hr hs (t.run (gotoIf phycol line col)) (by rw [g4]; omega) ⟨g1, g2⟩
         rw [andThen_snd, andThen_fst, GridTerm.run_append, GridTerm.run_append]
         have := ih (col + (rb.cell line col).cols) (col + (rb.cell line col).cols)
           ((t.run (gotoIf phycol line col)).run (textReqs (rb.cell line col))) hnext (by omega)
           (by rw [hd.cols_eq, g4]; exact hcw) (by omega)
           (by omega) (fun _ hl' => ⟨hd.line_eq, hcol (by rw [g4]; omega)⟩)
-        obtain ⟨i1, i0, i2, i3⟩ := this
-        exact ⟨i1, by rw [i0, hd.cols_eq, g4], drawn_then t _ _ _ hpos hfit g3 hd i2 i3⟩
+        obtain ⟨i1, i0, i2, i3, i4⟩ := this
+        obtain ⟨d1, d2⟩ := drawn_then t _ _ _ hpos hfit g3 hd i2 i3
+        exact ⟨i1, by rw [i0, hd.cols_eq, g4], d1, d2,
+          calm_run L t phycol line col _ _ ⟨hl.1, hL⟩ (textReqs_noGoto _) g1 hd.line_eq i4⟩
       · -- ERASE
         rename_i hs
-        obtain ⟨g1, g2, g3, g4⟩ := gotoIf_ready t h0 (by omega) hp1 (fun h => hp2 h hlt)
+        obtain ⟨hW, hL⟩ := hin col h0 hr (by rw [hs]; decide)
+        obtain ⟨g1, g2, g3, g4⟩ := gotoIf_ready t h0 (by omega) hp1 (fun h => hp2 h (by omega))
         generalize hm : eraseMoveend rb line col (rb.cell line col) = me
-        obtain ⟨hd, hcol⟩ := erase_run hl h0 hr hs (t.run (gotoIf phycol line col)) (by rw [g4]; exact hcw) ⟨g1, g2⟩
+        obtain ⟨hd, hcol⟩ := erase_run hl h0 hr hs (t.run (gotoIf phycol line col)) (by rw [g4]; omega) ⟨g1, g2⟩
           (if me = true then .yes else .maybe)
         rw [andThen_snd, andThen_fst, GridTerm.run_append, GridTerm.run_append]
         have := ih (col + (rb.cell line col).cols) (if me = true then col + (rb.cell line col).cols else -1)
@@ -636,14 +684,25 @@ theorem flushCols_spec {rb : RB} {line : Int} (hl : 0 ≤ line ∧ line < rb.lin
             cases me with
             | true => exact ⟨hd.line_eq, hcol (by simp) (by rw [g4]; omega)⟩
             | false => simp at hpe; omega)
-        obtain ⟨i1, i0, i2, i3⟩ := this
-        exact ⟨i1, by rw [i0, hd.cols_eq, g4], drawn_then t _ _ _ hpos hfit g3 hd i2 i3⟩
+        obtain ⟨i1, i0, i2, i3, i4⟩ := this
+        obtain ⟨d1, d2⟩ := drawn_then t _ _ _ hpos hfit g3 hd i2 i3
+        exact ⟨i1, by rw [i0, hd.cols_eq, g4], d1, d2,
+          calm_run L t phycol line col _ _ ⟨hl.1, hL⟩
+            (by intro r hr; simp only [List.mem_cons, List.not_mem_nil, or_false] at hr; rcases hr with rfl | rfl <;> rfl)
+            g1 hd.line_eq i4⟩
       · -- LINE
         rename_i hs
-        obtain ⟨g1, g2, g3, g4⟩ := gotoIf_ready t h0 (by omega) hp1 (fun h => hp2 h hlt)
+        obtain ⟨hW, hL⟩ := hin col h0 hr (by rw [hs]; decide)
+        obtain ⟨g1, g2, g3, g4⟩ := gotoIf_ready t h0 (by omega) hp1 (fun h => hp2 h (by omega))
         obtain ⟨hb, hbt, hblen⟩ := lineBatch_isBatch htl hlt hs
         have hbc := batchCols_of_isBatch _ _ hb
-        obtain ⟨hd, hcol⟩ := line_run hl h0 htl hlt hs (t.run (gotoIf phycol line col)) (by rw [g4]; exact hcw) ⟨g1, g2⟩
+        -- the last cell of the batch is a LINE run: it ends within `W`
+        have hWb : col + (lineBatch rb line col).length ≤ W := by
+          obtain ⟨_, hrl, hsl, _, _⟩ := hb ((lineBatch rb line col).length - 1) (by omega)
+          have h1 := (hin _ (by omega) hrl (by rw [hsl]; decide)).1
+          have h2 := hrl.one (Or.inl hsl)
+          omega
+        obtain ⟨hd, hcol⟩ := line_run hl h0 htl hlt hs (t.run (gotoIf phycol line col)) (by rw [g4]; omega) ⟨g1, g2⟩
         rw [andThen_snd, andThen_fst, GridTerm.run_append, GridTerm.run_append, hbc]
         have hle := hbt.le_cols
         have := ih (col + (lineBatch rb line col).length) (col + (lineBatch rb line col).length)
@@ -651,26 +710,35 @@ theorem flushCols_spec {rb : RB} {line : Int} (hl : 0 ≤ line ∧ line < rb.lin
             [.setpen (rb.cell line col).pen,
              .print (batchBytes (lineBatch rb line col)) 0 (batchBytes (lineBatch rb line col)).length])
           hbt (by omega) (by rw [hd.cols_eq, g4]; exact hcw) (by omega) (by omega) (fun _ _ => ⟨hd.line_eq, hcol⟩)
-        obtain ⟨i1, i0, i2, i3⟩ := this
-        exact ⟨i1, by rw [i0, hd.cols_eq, g4], drawn_then t _ _ _ (by omega) hle g3 hd i2 i3⟩
+        obtain ⟨i1, i0, i2, i3, i4⟩ := this
+        obtain ⟨d1, d2⟩ := drawn_then t _ _ _ (by omega) hle g3 hd i2 i3
+        exact ⟨i1, by rw [i0, hd.cols_eq, g4], d1, d2,
+          calm_run L t phycol line col _ _ ⟨hl.1, hL⟩
+            (by intro r hr; simp only [List.mem_cons, List.not_mem_nil, or_false] at hr; rcases hr with rfl | rfl <;> rfl)
+            g1 hd.line_eq i4⟩
       · -- CHAR
         rename_i hs
-        obtain ⟨g1, g2, g3, g4⟩ := gotoIf_ready t h0 (by omega) hp1 (fun h => hp2 h hlt)
-        obtain ⟨hd, hcol⟩ := char_run hl h0 hr hs (t.run (gotoIf phycol line col)) (by rw [g4]; exact hcw) ⟨g1, g2⟩
+        obtain ⟨hW, hL⟩ := hin col h0 hr (by rw [hs]; decide)
+        obtain ⟨g1, g2, g3, g4⟩ := gotoIf_ready t h0 (by omega) hp1 (fun h => hp2 h (by omega))
+        obtain ⟨hd, hcol⟩ := char_run hl h0 hr hs (t.run (gotoIf phycol line col)) (by rw [g4]; omega) ⟨g1, g2⟩
         rw [andThen_snd, andThen_fst, GridTerm.run_append, GridTerm.run_append]
         have := ih (col + (rb.cell line col).cols) (col + (rb.cell line col).cols)
           ((t.run (gotoIf phycol line col)).run
             [.setpen (rb.cell line col).pen,
              .print (Utf8.put (rb.cell line col).cp.toNat) 0 (Utf8.put (rb.cell line col).cp.toNat).length])
           hnext (by omega) (by rw [hd.cols_eq, g4]; exact hcw) (by omega) (by omega) (fun _ _ => ⟨hd.line_eq, hcol⟩)
-        obtain ⟨i1, i0, i2, i3⟩ := this
-        exact ⟨i1, by rw [i0, hd.cols_eq, g4], drawn_then t _ _ _ hpos hfit g3 hd i2 i3⟩
+        obtain ⟨i1, i0, i2, i3, i4⟩ := this
+        obtain ⟨d1, d2⟩ := drawn_then t _ _ _ hpos hfit g3 hd i2 i3
+        exact ⟨i1, by rw [i0, hd.cols_eq, g4], d1, d2,
+          calm_run L t phycol line col _ _ ⟨hl.1, hL⟩
+            (by intro r hr; simp only [List.mem_cons, List.not_mem_nil, or_false] at hr; rcases hr with rfl | rfl <;> rfl)
+            g1 hd.line_eq i4⟩
       · -- CONT: excluded by RunAt
         rename_i hs
         exact absurd hs hr.notCont
     · rw [if_pos hlt]
       have := htl.le_cols
-      refine ⟨rfl, rfl, ?_, ?_⟩
+      refine ⟨rfl, rfl, ?_, ?_, trivial⟩
       · intro c hc1 hc2; omega
       · intro l c _; rfl
 
@@ -678,32 +746,35 @@ theorem flushCols_spec {rb : RB} {line : Int} (hl : 0 ≤ line ∧ line < rb.lin
 
 theorem cellOK_keep (c : TCell) : cellOK .keep c c = true := by simp [cellOK]
 
-theorem flushLines_spec {rb : RB} (hwf : FlushWF rb)
+theorem flushLines_spec {rb : RB} {W L : Int} (hwf : FlushWF rb) (hin : FitsIn rb W L)
     (htext : ∀ line col, 0 ≤ line → line < rb.lines → 0 ≤ col → RunAt rb line col →
       (rb.cell line col).state = .text → TextRunOK rb line col) :
-    ∀ (n : Nat) (line : Int) (t : GridTerm), 0 ≤ line → line + n ≤ rb.lines → rb.cols ≤ t.cols →
+    ∀ (n : Nat) (line : Int) (t : GridTerm), 0 ≤ line → line + n ≤ rb.lines → W ≤ t.cols →
       (flushLines textReqs rb n line).2 = .ok ∧
       (∀ l c, line ≤ l → l < line + n → 0 ≤ c → c < rb.cols →
         cellOK (want rb l c) (t.cells l c) ((t.run (flushLines textReqs rb n line).1).cells l c) = true) ∧
       (∀ l c, ¬ (line ≤ l ∧ l < line + n ∧ 0 ≤ c ∧ c < rb.cols) →
-        (t.run (flushLines textReqs rb n line).1).cells l c = t.cells l c) := by
+        (t.run (flushLines textReqs rb n line).1).cells l c = t.cells l c) ∧
+      Calm L t (flushLines textReqs rb n line).1 := by
   intro n
   induction n with
   | zero =>
     intro line t _ _ _
-    refine ⟨rfl, ?_, ?_⟩
+    refine ⟨rfl, ?_, ?_, trivial⟩
     · intro l c h1 h2; omega
     · intro l c _; rfl
   | succ k ih =>
     intro line t h0 h1 hcw
     have hl : 0 ≤ line ∧ line < rb.lines := by omega
-    obtain ⟨c1, c0, c2, c3⟩ := flushCols_spec hl (fun col hc hr hs => htext line col hl.1 hl.2 hc hr hs)
+    obtain ⟨c1, c0, c2, c3, c4⟩ := flushCols_spec (W := W) (L := L) hl
+      (fun col hc hr hs => hin line col hl.1 hl.2 hc hr hs)
+      (fun col hc hr hs => htext line col hl.1 hl.2 hc hr hs)
       (rb.cols.toNat + 1) 0 (-1) t (hwf line hl.1 hl.2) (by omega) hcw (by omega) (by omega) (by omega)
     unfold flushLines
     simp only [c1, andThen_fst, andThen_snd, GridTerm.run_append]
-    obtain ⟨i1, i2, i3⟩ := ih (line + 1) (t.run (flushCols textReqs rb line (rb.cols.toNat + 1) 0 (-1)).1)
+    obtain ⟨i1, i2, i3, i4⟩ := ih (line + 1) (t.run (flushCols textReqs rb line (rb.cols.toNat + 1) 0 (-1)).1)
       (by omega) (by omega) (by rw [c0]; exact hcw)
-    refine ⟨i1, ?_, ?_⟩
+    refine ⟨i1, ?_, ?_, calm_append L _ _ t c4 i4⟩
     · intro l c hl1 hl2 hc1 hc2
       by_cases hll : l = line
       · subst hll
@@ -715,17 +786,19 @@ theorem flushLines_spec {rb : RB} (hwf : FlushWF rb)
     · intro l c hn
       rw [i3 l c (by omega), c3 l c (by omega)]
 
-/-- The whole flush, given the TEXT case, on a terminal at least as wide as the buffer. -/
-theorem flush_spec_of_text {rb : RB} (hwf : FlushWF rb)
+/-- The whole flush, given the TEXT case, on a terminal wide enough for the content (`FitsIn rb W L`, `W ≤ t.cols`):
+    the specification holds of the grid, and the requests are calm on a screen of `L` lines. -/
+theorem flush_spec_of_text_within {rb : RB} {W L : Int} (hwf : FlushWF rb) (hin : FitsIn rb W L)
     (htext : ∀ line col, 0 ≤ line → line < rb.lines → 0 ≤ col → RunAt rb line col →
-      (rb.cell line col).state = .text → TextRunOK rb line col) (t : GridTerm) (hcw : rb.cols ≤ t.cols) :
+      (rb.cell line col).state = .text → TextRunOK rb line col) (t : GridTerm) (hcw : W ≤ t.cols) :
     (flushToTerm rb).out = .ok ∧
-    ∀ l c, cellOK (want rb l c) (t.cells l c) ((t.run (flushToTerm rb).reqs).cells l c) = true := by
+    (∀ l c, cellOK (want rb l c) (t.cells l c) ((t.run (flushToTerm rb).reqs).cells l c) = true) ∧
+    Calm L t (flushToTerm rb).reqs := by
   unfold flushToTerm flushWith
   simp only
   by_cases hlines : 0 ≤ rb.lines
-  · obtain ⟨h1, h2, h3⟩ := flushLines_spec hwf htext rb.lines.toNat 0 t (by omega) (by omega) hcw
-    refine ⟨h1, ?_⟩
+  · obtain ⟨h1, h2, h3, h4⟩ := flushLines_spec hwf hin htext rb.lines.toNat 0 t (by omega) (by omega) hcw
+    refine ⟨h1, ?_, h4⟩
     intro l c
     by_cases hg : rb.inGrid l c
     · unfold RB.inGrid at hg
@@ -736,11 +809,59 @@ theorem flush_spec_of_text {rb : RB} (hwf : FlushWF rb)
       exact cellOK_keep _
   · have : rb.lines.toNat = 0 := by omega
     rw [this]
-    refine ⟨rfl, ?_⟩
+    refine ⟨rfl, ?_, trivial⟩
     intro l c
     have hg : ¬ rb.inGrid l c := by unfold RB.inGrid; omega
     unfold want
     rw [if_pos hg]
     exact cellOK_keep _
+
+/-- Every buffer's content lies within the buffer. -/
+theorem within_self (rb : RB) : FitsIn rb rb.cols rb.lines :=
+  fun _ _ _ h2 _ hr _ => ⟨hr.fits, h2⟩
+
+theorem FitsIn.mono {rb : RB} {W L W' L' : Int} (h : FitsIn rb W L) (hW : W ≤ W') (hL : L ≤ L') : FitsIn rb W' L' := by
+  intro line col h1 h2 h3 hr hs
+  have := h line col h1 h2 h3 hr hs
+  omega
+
+/-- A run that is not SKIP owes every one of its cells something. -/
+theorem wantOf_ne_keep (sc : Cell) (j : Int) (h : sc.state ≠ .skip) : wantOf sc j ≠ .keep := by
+  unfold wantOf
+  cases hs : sc.state with
+  | skip => exact absurd hs h
+  | erase => simp
+  | char => simp
+  | line => simp
+  | cont => simp
+  | text =>
+    simp only
+    split
+    · simp
+    · split <;> simp
+
+/-- "The terminal cells outside a screen of `W` columns and `L` lines are owed nothing" puts the content within it. -/
+theorem within_of_want {rb : RB} {W L : Int} (h : ∀ l c, L ≤ l ∨ W ≤ c → want rb l c = .keep) : FitsIn rb W L := by
+  intro line col h1 h2 h3 hr hs
+  have hpos := hr.pos
+  have hw := want_of_run ⟨h1, h2⟩ h3 hr (col + (rb.cell line col).cols - 1) (by omega) (by omega)
+  have hne := wantOf_ne_keep (rb.cell line col) (col + (rb.cell line col).cols - 1 - col) hs
+  rw [← hw] at hne
+  refine ⟨?_, ?_⟩
+  · by_cases hc : W ≤ col + (rb.cell line col).cols - 1
+    · exact absurd (h _ _ (Or.inr hc)) hne
+    · omega
+  · by_cases hc : L ≤ line
+    · exact absurd (h _ _ (Or.inl hc)) hne
+    · omega
+
+/-- The whole flush, given the TEXT case, on a terminal at least as wide as the buffer. -/
+theorem flush_spec_of_text {rb : RB} (hwf : FlushWF rb)
+    (htext : ∀ line col, 0 ≤ line → line < rb.lines → 0 ≤ col → RunAt rb line col →
+      (rb.cell line col).state = .text → TextRunOK rb line col) (t : GridTerm) (hcw : rb.cols ≤ t.cols) :
+    (flushToTerm rb).out = .ok ∧
+    ∀ l c, cellOK (want rb l c) (t.cells l c) ((t.run (flushToTerm rb).reqs).cells l c) = true :=
+  let h := flush_spec_of_text_within hwf (within_self rb) htext t hcw
+  ⟨h.1, h.2.1⟩
 
 end Tickit.RBFlush
